@@ -9,6 +9,7 @@ of cgLocalVarDeclStat this held only for programs without a multi-initialiser `l
 (`interleaved_local_differs` states the former finding C06-K2).
 -/
 import LuaHelper.Spec.Bind
+import LuaHelper.Gen.Shapes
 namespace LuaHelper.C06
 open LuaHelper.Lex LuaHelper.Ast LuaHelper.Bind
 
@@ -105,6 +106,12 @@ end
 #print axioms tBlocks
 #print axioms tAll
 #print axioms tStat
+
+/-- the order in `cgLocalVarDeclStat` as it stands in /repo now (regenerated on every run): one statement
+    analyses the initialisers (cgExp), the following ones declare the names (AddLocVar) — no statement does both -/
+theorem local_decl_order :
+    Gen.localDeclCalls = ["cgExp", "AddLocVar", "AddLocVar,AddLocVar"] := by decide
+#print axioms local_decl_order
 
 /-- **The traversal binder is Lua's binder** on every chunk (any nesting, any shadowing, any number of
     initialisers). -/
